@@ -550,9 +550,15 @@ func GenFeed(r *core.Rand, o Opts) *Feed {
 	}
 	for k := 0; k < nI; k++ {
 		vp := &gtfsrt.VehiclePosition{}
-		if r.Chance(1, 3) {
+		switch r.Intn(6) {
+		case 0, 1:
 			vp.Vehicle = &gtfsrt.VehicleDescriptor{} // present but empty
 			f.feat("empty-vehicle-descriptor")
+		case 2:
+			// fields explicitly set to the empty string: still a vehicle without identifier, and not the same
+			// vehicle as another one written that way
+			vp.Vehicle = core.Pick(r, []*gtfsrt.VehicleDescriptor{{Id: S("")}, {Label: S("")}, {LicensePlate: S("")}, {Id: S(""), Label: S(""), LicensePlate: S("")}})
+			f.feat("vehicle-descriptor-with-explicitly-empty-fields")
 		}
 		FillVehiclePosition(r, vp, 2000+k)
 		trip := -1
